@@ -49,7 +49,7 @@ theorem hasOrAdd_spills_before_dropping (V : Bytes → Bytes) (S : List Bytes) (
 
 /-! ### tie by translation: the source's own leaf logic (regenerated into SV/Generated/Funcs.lean on every run) IS the model's -/
 theorem source_eviction_test_is_the_models (c : LRU.Cap) :
-    c.shouldEvict = Gen.lruShouldEvict c.entries.length c.cap c.bytes c.maxBytes := GenProofs.lruShouldEvict_eq c
+    c.shouldEvict = Gen.lruShouldEvict (c_evictList_Len := c.entries.length) (c_size := c.cap) (c_currentCapacityInBytes := c.bytes) (c_maxCapacityInBytes := c.maxBytes) := GenProofs.lruShouldEvict_eq c
 
 /-- (regenerated fact) the adapter's Put — memory-tier write and persisting of the reported victims — is one critical section -/
 theorem adapter_put_holds_the_lock_throughout : Facts.adapterPutSingleSection = true := Facts.adapter_put_is_single_section
